@@ -166,7 +166,7 @@ func stage(b *c18Builder, name string, args ...Expr) AppStage {
 func hx(s string) Expr { return sl(hex.EncodeToString([]byte(s))) }
 
 func checkC18(c *Check) {
-	c.Rule = "probe programs installed in the sandbox record argc/argv (hex) per invocation, act as tagged filters and produce requested output/status; cells: argument value (C08 payloads, every printable character, blanks, empty) x position (sole, first, last, middle) x form (literal, variable, run-time value, concatenation, call result), glob patterns with matching files present in the working directory, empty strings at every position of 0-5 arguments, program named by identifier or by string literal, pipelines of 1-3 stages with tagged filters, capture of outputs with 0-3 trailing newlines, inner blank lines and white space at the end that is not the trailing newline, computed arguments with an effect in every stage (evaluation order over the chain), statuses {0,1,2,7,126,127,255} on last and non-last stages, statement versus capture form, inside functions; oracle = model of the probes (expected argv logs as files, expected stdout and captured value/status) plus the sandbox snapshot (a redirect from data shows as a stray file). Non-trivial = at least one command executed; distinct = SHA-256 of source + files"
+	c.Rule = "probe programs installed in the sandbox record argc/argv (hex) per invocation, act as tagged filters and produce requested output/status; cells: argument value (C08 payloads, every printable character, blanks, empty) x position (sole, first, last, middle) x form (literal, variable, run-time value, concatenation, call result), glob patterns with matching files present in the working directory, empty strings at every position of 0-5 arguments, program named by identifier or by string literal, pipelines of 1-3 stages with tagged filters, capture of outputs with 0-3 trailing newlines, inner blank lines and white space at the end that is not the trailing newline, computed arguments with an effect in every stage (evaluation order over the chain), statuses {0,1,2,7,126,127,255} on last and non-last stages, statement versus capture form, inside functions; one call site executed five times in a loop / function with shrinking outputs and changing statuses; composite programs of 2-6 calls with random pipelines, arguments, outputs, statuses and placements (branch, loop, function); oracle = model of the probes (expected argv logs as files, expected stdout and captured value/status) plus the sandbox snapshot (a redirect from data shows as a stray file). Non-trivial = at least one command executed; distinct = SHA-256 of source + files"
 	c.Assumptions = []string{"literal spellings of \" $ ` \\ avoided (C08 finding); such values arrive at run time", "exit status of a pipeline = status of its last command"}
 	runProbes(c, bashProbeJudge)
 	nontrivial := func(r Result) bool { return r.Features["appcall"]+r.Features["appcallstmt"] > 0 }
@@ -440,6 +440,110 @@ func checkC18(c *Check) {
 		s2 := []AppStage{stage(b, "p_say", hx("two\n"), sl("0")), stage(b, "p_tagA")}
 		add(b.finish("capture/two-in-a-row", VarDecl{Names: []string{"o1", "e1", "c1"}, Short: true, Values: []Expr{AppCall{s1}}}, VarDecl{Names: []string{"o2", "e2", "c2"}, Short: true, Values: []Expr{AppCall{s2}}}, pr(vr("o1"), vr("c1"), vr("o2"), vr("c2")), Assign{[]string{"o1", "e1", "c1"}, []Expr{AppCall{s2}}}, pr(vr("o1"), vr("c1"), cmp("==", vr("c1"), il(0)), bin("+", vr("o1"), vr("o2")))))
 	}
+	// one call site executed several times: every execution hands over its own arguments and yields its own
+	// output and status (long output, then short, then none; failing, then succeeding)
+	{
+		seq := []struct {
+			out  string
+			code int
+		}{{"a long first output\nwith two lines\n", 3}, {"s", 0}, {"", 7}, {"x\n\n", 0}, {"last", 255}}
+		for plen := 1; plen <= 2; plen++ {
+			for _, capture := range []bool{true, false} {
+				for _, place := range []string{"loop", "function", "function-in-loop"} {
+					b := newC18()
+					outs, codes := []Expr{}, []Expr{}
+					for _, q := range seq {
+						outs = append(outs, hx(q.out))
+						codes = append(codes, sl(strconv.Itoa(q.code)))
+					}
+					pre := []Stmt{def("outs", SliceLit{Elem: TString, Elems: outs}), def("codes", SliceLit{Elem: TString, Elems: codes})}
+					mk := func(h, cd Expr) []Stmt {
+						stages := []AppStage{stage(b, "p_say", h, map[bool]Expr{true: cd, false: sl("4")}[plen == 1])}
+						if plen == 2 {
+							stages = append(stages, stage(b, "p_tagA", cd))
+						}
+						if capture {
+							return []Stmt{VarDecl{Names: []string{"o", "e", "code"}, Short: true, Values: []Expr{AppCall{stages}}}, pr(framed(vr("o")), framed(vr("e")), vr("code"))}
+						}
+						return []Stmt{ExprStmt{AppCall{stages}}, pr(sl("after"))}
+					}
+					var body []Stmt
+					switch place {
+					case "loop":
+						body = append(pre, For{Kind: ForThree, Init: def("i", il(0)), Cond: cmp("<", vr("i"), il(int64(len(seq)))), Post: IncDec{"i", true}, Body: mk(Index{"outs", vr("i")}, Index{"codes", vr("i")})})
+					case "function":
+						body = append(pre, fn("run", []Param{{"h", TString}, {"cd", TString}}, nil, mk(vr("h"), vr("cd"))...))
+						for i := range seq {
+							body = append(body, callS("run", Index{"outs", il(int64(i))}, Index{"codes", il(int64(i))}))
+						}
+					default:
+						body = append(pre, fn("run", []Param{{"h", TString}, {"cd", TString}}, nil, mk(vr("h"), vr("cd"))...), For{Kind: ForThree, Init: def("i", il(0)), Cond: cmp("<", vr("i"), il(int64(len(seq)))), Post: IncDec{"i", true}, Body: []Stmt{callS("run", Index{"outs", vr("i")}, Index{"codes", vr("i")})}})
+					}
+					add(b.finish(fmt.Sprintf("site-repeated/len=%d/capture=%v/%s", plen, capture, place), append(body, pr(sl("done")))...))
+				}
+			}
+		}
+	}
+	// composite programs: 2-6 calls with random pipelines, arguments, outputs, statuses and placements
+	nComp := c.Pick(120, 4000)
+	for k := 0; k < nComp; k++ {
+		rr := rand.New(rand.NewSource(c.Seed*18000047 + int64(k)))
+		b := newC18()
+		b.stmts = append(b.stmts, def("yes", bl(true)))
+		body := []Stmt{}
+		funcs := []Stmt{}
+		ncalls := 2 + rr.Intn(5)
+		for i := 0; i < ncalls; i++ {
+			plen := 1 + rr.Intn(3)
+			stages := []AppStage{}
+			args := func() []Expr {
+				as := []Expr{}
+				for j := rr.Intn(4); j > 0; j-- {
+					vn := vnames[rr.Intn(len(vnames))]
+					if a, ok := b.arg(values[vn], forms[rr.Intn(len(forms))]); ok {
+						as = append(as, a)
+					}
+				}
+				return as
+			}
+			if rr.Intn(3) == 0 {
+				stages = append(stages, stage(b, fmt.Sprintf("p_rec%d", i), args()...))
+			} else {
+				stages = append(stages, stage(b, "p_say", hx(outputs[onames[rr.Intn(len(onames))]]), sl(strconv.Itoa(statuses[rr.Intn(len(statuses))]))))
+			}
+			for j := 1; j < plen; j++ {
+				if rr.Intn(4) == 0 {
+					stages = append(stages, stage(b, fmt.Sprintf("p_rec%d_%d", i, j), args()...))
+				} else {
+					stages = append(stages, stage(b, []string{"p_tagA", "p_tagB", "p_tagC"}[j%3], sl(strconv.Itoa(statuses[rr.Intn(len(statuses))]))))
+				}
+			}
+			var op []Stmt
+			o, e, cd := fmt.Sprintf("o%d", i), fmt.Sprintf("e%d", i), fmt.Sprintf("c%d", i)
+			if rr.Intn(2) == 0 {
+				op = []Stmt{VarDecl{Names: []string{o, e, cd}, Short: true, Values: []Expr{AppCall{stages}}}, pr(sl(fmt.Sprintf("call %d", i)), framed(vr(o)), framed(vr(e)), vr(cd))}
+			} else {
+				op = []Stmt{ExprStmt{AppCall{stages}}, pr(sl(fmt.Sprintf("after %d", i)))}
+			}
+			switch rr.Intn(5) {
+			case 0:
+				op = []Stmt{ifs(vr("yes"), op...)}
+			case 1:
+				op = loopForm([]int{0, 3}[rr.Intn(2)], fmt.Sprintf("k%d", i), int64(2+rr.Intn(2)), op)
+			case 2:
+				fname := fmt.Sprintf("run%d", i)
+				funcs = append(funcs, fn(fname, nil, nil, op...))
+				op = []Stmt{callS(fname)}
+				if rr.Intn(2) == 0 {
+					op = append(op, callS(fname))
+				}
+			}
+			body = append(body, op...)
+		}
+		all := append(append([]Stmt{}, funcs...), body...)
+		add(b.finish(fmt.Sprintf("composite/%d", k), append(all, pr(sl("done")))...))
+	}
+	c.Extra["composite_programs"] = nComp
 	c.Extra["cases"] = len(cases)
 	runBashCases(c, cases)
 }
